@@ -89,6 +89,11 @@ def run_brew_cfg(inp, cfg, learner=None):
         # real-valued scores were reconstructed as rationals only approximately: use the floats kept in info instead
         return {"cfg": str(cfg), "raised": tr["raised"], "vals": vals, "files": [], "digests": []}
     tr, info = brewrun.run_brew(c)
+    if c.get("est") == "proba" and info["ret"] is not None:
+        # probabilities are not small rationals: scaled integers (the group is compared within 2 units of 1e-6)
+        vals = [int(round(float(v) * 10 ** 6)) if np.isfinite(v) else -10 ** 9
+                for sc in info["ret"][2] for v in np.asarray(sc, dtype=float).reshape(-1)]
+        return {"cfg": str(cfg), "raised": tr["raised"], "vals": vals, "files": [], "digests": [], "enforced": bool(info["enforced"])}
     vals = []
     for s in tr["scores"]:
         if s["nan"] or not s["ok"]:
@@ -207,7 +212,7 @@ def run(ctx):
             inp["est"] = "proba"          # an estimator without decision_function (predict_proba only, no calibration)
         for learner in ((None,) if j % 3 else (None, "lr")):
             g = len(groups)
-            groups.append({"kind": "brew", "input": inp, "learner": learner, "tol": 2 if learner else 0})
+            groups.append({"kind": "brew", "input": inp, "learner": learner, "tol": 2 if (learner or inp.get("est") == "proba") else 0})
             cfgs = brew_configs(inp, orders, rng, ctx.quick)
             if learner:
                 cfgs = cfgs[:12]
